@@ -10,6 +10,7 @@ import (
 	"github.com/cedar-policy/cedar-go/verif/c02"
 	"github.com/cedar-policy/cedar-go/verif/c03"
 	"github.com/cedar-policy/cedar-go/verif/c04"
+	"github.com/cedar-policy/cedar-go/verif/c05"
 	"github.com/cedar-policy/cedar-go/verif/c06"
 	"github.com/cedar-policy/cedar-go/verif/c20"
 	"github.com/cedar-policy/cedar-go/verif/core"
@@ -20,6 +21,7 @@ var registry = map[string]func() *core.Check{
 	"C02": c02.Check,
 	"C03": c03.Check,
 	"C04": c04.Check,
+	"C05": c05.Check,
 	"C06": c06.Check,
 	"C20": c20.Check,
 }
